@@ -464,6 +464,10 @@ def mon_c15(h, outs):
                     if idx is None:
                         c = plain(cur)
                         idx = was.index(c) if c in was else None
+                    if idx is not None and not (0 <= idx < len(was)) and now != was:
+                        fails.append(("c15:nonexistent-instance-changed:%s" % nm,
+                                      "ModifyAttribute of instance %d of %s on object %s succeeded: the object has instances 0..%d "
+                                      "only; instances were %s, are now %s" % (idx, nm, u, len(was) - 1, was, now), i))
                     if idx is not None and 0 <= idx < len(was):
                         want = was[:idx] + [plain(new)] + was[idx + 1:]
                         if now != want and sorted(map(str, now)) != sorted(map(str, want)):
@@ -498,6 +502,10 @@ def mon_c15(h, outs):
                         fails.append(("c15:delete-removed-unaddressed-instance:%s" % nm,
                                       "DeleteAttribute of the instance of %s with value %r on object %s (KMIP 2.0) succeeded: "
                                       "the object has no such instance; instances were %s, are now %s" % (nm, c, u, was, now), i))
+                    if idx is not None and ver < 20 and not (0 <= idx < len(was)) and now != was:
+                        fails.append(("c15:nonexistent-instance-changed:%s" % nm,
+                                      "DeleteAttribute of instance %d of %s on object %s succeeded: the object has instances 0..%d "
+                                      "only; instances were %s, are now %s" % (idx, nm, u, len(was) - 1, was, now), i))
                     if idx is not None and 0 <= idx < len(was):
                         want = was[:idx] + was[idx + 1:]
                         if now != want:
